@@ -125,6 +125,31 @@ Theorem C20_absolute_url_in_normal_form_partial : forall rq rp s a p2 m,
 Proof. exact absolute_url_in_normal_form. Qed.
 Print Assumptions C20_absolute_url_in_normal_form_partial.
 
+(* a relative-path reference: the key evicted is scheme://authority + Encode(directory of the request path + reference) *)
+Theorem C20_location_relative_path_evicted_partial : forall rq rp s a d seg h m,
+  wf_request rq s a -> purges_others (rq_method rq) = true -> rp_status rp < 400 ->
+  no_nul h = true -> url_is_relative h = true -> (hd0 h =? SLASH) = false ->
+  u_path (rq_url rq) = d ++ SLASH :: seg -> no_byte SLASH seg = true ->
+  rp_location rp = Some h \/ rp_content_location rp = Some h ->
+  In m (cacheable_ids pg_methods) ->
+  In (m, s ++ SEP ++ a ++ uri_encode pg_PathChars (d ++ SLASH :: h)) (evicted_keys rq rp).
+Proof. exact location_relative_path_evicted. Qed.
+Print Assumptions C20_location_relative_path_evicted_partial.
+
+(* ... and against the RFC 3986 resolver (5.2.3 merge): a relative-path reference in normal form names exactly that URL *)
+Theorem C20_relative_path_reference_in_normal_form_partial : forall rq rp s a d seg h m,
+  wf_request rq s a -> purges_others (rq_method rq) = true -> rp_status rp < 400 ->
+  u_path (rq_url rq) = d ++ SLASH :: seg -> no_byte SLASH seg = true ->
+  h <> [] -> (hd0 h =? SLASH) = false -> url_is_relative h = true ->
+  strip_fragment h = h -> remove_dot_segments (d ++ SLASH :: h) = d ++ SLASH :: h ->
+  forallb pg_PathChars (d ++ SLASH :: h) = true ->
+  rp_location rp = Some h \/ rp_content_location rp = Some h ->
+  In m (cacheable_ids pg_methods) ->
+  names_same_authority s a (uri_path (rq_url rq)) h (s ++ SEP ++ a ++ d ++ SLASH :: h) /\
+  In (m, s ++ SEP ++ a ++ d ++ SLASH :: h) (evicted_keys rq rp).
+Proof. exact relative_path_reference_in_normal_form. Qed.
+Print Assumptions C20_relative_path_reference_in_normal_form_partial.
+
 (* URLs of other authorities are left alone: when the headers name another authority, every cached URL other than the
    request URL is found exactly as before *)
 Theorem C20_other_authority_untouched : forall rq rp s a s2 a2 p2 t m st,
@@ -141,22 +166,7 @@ Theorem C20_named_url_always_evicted_refuted : ~ named_url_always_evicted.
 Proof. exact named_url_always_evicted_is_false. Qed.
 Print Assumptions C20_named_url_always_evicted_refuted.
 
-(* POST http://h:8/d/u answered 200 with Location: v — names http://h:8/d/v, which stays cached *)
-Theorem C20_relative_path_reference_refuted : stays_cached (B [118]).
-Proof. exact relative_path_reference_stays. Qed.
-Print Assumptions C20_relative_path_reference_refuted.
-
-(* ... and that is so for EVERY relative-path reference: addRelativePath leaves the cached absolute_ in place, so the
-   request URL is evicted a second time and every other URL of the store (the named one included) is found as before *)
-Theorem C20_relative_path_reference_names_nothing : forall rq rp s a t m st,
-  wf_request rq s a -> purges_others (rq_method rq) = true ->
-  (forall h, rp_location rp = Some h \/ rp_content_location rp = Some h ->
-     no_nul h = true /\ url_is_relative h = true /\ (hd0 h =? SLASH) = false) ->
-  t <> request_uri rq ->
-  store_has (evict_all (evicted_keys rq rp) st) (m, t) = store_has st (m, t).
-Proof. exact relative_path_reference_names_nothing. Qed.
-Print Assumptions C20_relative_path_reference_names_nothing.
-
+(* POST http://h:8/d/u answered 200 with Location: <ref>, http://h:8/d/v cached: it is named by <ref> and stays cached *)
 (* Location: /d/./v, /d/x/../v, ./v, ../d/v *)
 Theorem C20_dot_segments_refuted :
   stays_cached (B [47;100;47;46;47;118]) /\ stays_cached (B [47;100;47;120;47;46;46;47;118]) /\
@@ -190,11 +200,12 @@ Theorem C20_add_relative_path_merges : forall u d seg rel,
 Proof. exact add_relative_path_merges. Qed.
 Print Assumptions C20_add_relative_path_merges.
 
-(* ... but keeps the result caches of absolute() / absolutePath() *)
-Theorem C20_add_relative_path_keeps_caches : forall u rel,
-  u_abs_cache (uri_add_relative_path rel u) = u_abs_cache u /\ u_abspath_cache (uri_add_relative_path rel u) = u_abspath_cache u.
-Proof. exact add_relative_path_keeps_caches. Qed.
-Print Assumptions C20_add_relative_path_keeps_caches.
+(* ... and, like path(p), drops the result caches of absolute() / absolutePath() (touch()) *)
+Theorem C20_add_relative_path_clears_caches : forall u rel,
+  u_urn u = false ->
+  u_abs_cache (uri_add_relative_path rel u) = [] /\ u_abspath_cache (uri_add_relative_path rel u) = [].
+Proof. exact add_relative_path_clears_caches. Qed.
+Print Assumptions C20_add_relative_path_clears_caches.
 
 (* absolute() returns the same text when asked again, whatever the caches held *)
 Theorem C20_effective_request_uri_stable : forall rq,
@@ -220,12 +231,14 @@ Example C20_ex_spec_resolves_plain_references :
 Proof. exact spec_examples. Qed.
 Example C20_ex_normal_form_hypotheses :
   strip_fragment (B [47;100;47;118]) = B [47;100;47;118] /\ remove_dot_segments (B [47;100;47;118]) = B [47;100;47;118] /\
-  forallb pg_PathChars (B [47;100;47;118]) = true /\ map lower w_http = w_http /\ map lower w_auth = w_auth.
+  forallb pg_PathChars (B [47;100;47;118]) = true /\ map lower w_http = w_http /\ map lower w_auth = w_auth /\
+  u_path (rq_url w_rq) = B [47;100] ++ SLASH :: B [117] /\ url_is_relative (B [118]) = true /\ strip_fragment (B [118]) = B [118].
 Proof. exact normal_form_examples. Qed.
 Example C20_ex_plain_forms_are_evicted :
   store_has (evict_all (evicted_keys w_rq (w_rp (B [47;100;47;118]))) [(pg_METHOD_GET, w_target)]) (pg_METHOD_GET, w_target) = false /\
   store_has (evict_all (evicted_keys w_rq (w_rp (B [104;116;116;112;58;47;47;104;58;56;47;100;47;118]))) [(pg_METHOD_GET, w_target)])
-            (pg_METHOD_GET, w_target) = false.
+            (pg_METHOD_GET, w_target) = false /\
+  store_has (evict_all (evicted_keys w_rq (w_rp (B [118]))) [(pg_METHOD_GET, w_target)]) (pg_METHOD_GET, w_target) = false.
 Proof. exact plain_forms_evicted. Qed.
 Example C20_ex_method_tokens :
   method_of_image true [80;79;83;84] = pg_METHOD_POST /\ method_of_image true [112;117;116] = pg_METHOD_PUT /\
